@@ -575,7 +575,7 @@ def _make_roundtrip(pc, key, st, where):
     for kind in kinds:
         cname = "C11.simpletypes.%s.roundtrip[%s]~%s" % (name, kind, key[1])
 
-        @contract("C11", cname)
+        @contract("C11", cname, timeout_ms=90000 if name in MODULAR else None)
         def body(c, pc=pc, kind=kind, name=name):
             """(e) from_xml(to_xml(v)) == v to within the type's quantum."""
             v = _value_for(c, kind)
@@ -594,6 +594,11 @@ def _make_roundtrip(pc, key, st, where):
             rv, vv = to_real(r), to_real(v)
             if name in MODULAR:
                 sc = SCALED[name]
+                # proof hints: rounding commutes with shifting by whole turns (each instance is proved first)
+                x = vv * sc
+                for hint, k in (("neg", z3.ToInt(vv / (-360)) + 1), ("pos", -z3.ToInt(vv / 360))):
+                    c.lemma("round_shift_%s" % hint,
+                            real_round_half_even(x + z3.ToReal(MODULAR[name] * k)) == real_round_half_even(x) + MODULAR[name] * k)
                 c.ensures("roundtrip.value_mod_360", rv * sc == z3.ToReal(real_round_half_even(vv * sc) % MODULAR[name]))
                 c.ensures("roundtrip.normalised", z3.And(rv >= 0, rv < 360))
             elif name == "ST_TextFontScalePercentOrPercentString":
